@@ -17,7 +17,7 @@ type enumBuilder struct {
 	commentSet
 }
 
-func (e *enumBuilder) addValue(number int32, schema *schema_j5pb.Enum_Option) {
+func (e *enumBuilder) addValue(file *fileContext, number int32, schema *schema_j5pb.Enum_Option) {
 	name := schema.Name
 	if !strings.HasPrefix(name, e.prefix) {
 		name = e.prefix + name
@@ -29,6 +29,7 @@ func (e *enumBuilder) addValue(number int32, schema *schema_j5pb.Enum_Option) {
 
 	if len(schema.Info) > 0 {
 		value.Options = &descriptorpb.EnumValueOptions{}
+		file.ensureImport(j5ExtImport)
 		proto.SetExtension(value.Options, ext_j5pb.E_EnumValue, &ext_j5pb.EnumValueOptions{
 			Info: schema.Info,
 		})
